@@ -134,6 +134,9 @@ structure IH (env : Env) (fuel : Nat) : Prop where
   inLoop : ∀ sv o body i st, PresTail st (inLoop env fuel sv o body i st).2
   inLoopB : ∀ sv o w body i st, PresTail st (inLoopB env fuel sv o w body i st).2
   inBatch : ∀ sv o bp w body els cache st, Pres st (inBatch env fuel sv o bp w body els cache st).2
+  resolveNames : ∀ names bp bad st, Pres st (resolveNames env fuel names bp bad st).2
+  evalSortKey : ∀ x st, Pres st (evalSortKey env fuel x st).2
+  evalReverse : ∀ x st, Pres st (evalReverse env fuel x st).2
   letLoop : ∀ binds body st, PresTail st (letLoop env fuel binds body st).2
 
 theorem ih_zero (env : Env) : IH env 0 where
@@ -153,6 +156,9 @@ theorem ih_zero (env : Env) : IH env 0 where
   inLoop := fun sv o body i st => by unfold inLoop; exact (Pres.refl _).toTail
   inLoopB := fun sv o w body i st => by unfold inLoopB; exact (Pres.refl _).toTail
   inBatch := fun sv o bp w body els cache st => by unfold inBatch; exact Pres.refl _
+  resolveNames := fun names bp bad st => by unfold resolveNames; exact Pres.refl _
+  evalSortKey := fun x st => by unfold evalSortKey; exact Pres.refl _
+  evalReverse := fun x st => by unfold evalReverse; exact Pres.refl _
   letLoop := fun binds body st => by unfold letLoop; exact (Pres.refl _).toTail
 
 theorem getitem_step (env : Env) (fuel : Nat) (ih : IH env fuel) (key : Text) (call : Bool) (st : St) :
@@ -662,6 +668,69 @@ theorem inBatch_step (env : Env) (fuel : Nat) (ih : IH env fuel) (sv0 : SeqVars)
       | ret x => exact hfin
       | oom => exact hfin
 
+theorem resolveNames_step (env : Env) (fuel : Nat) (ih : IH env fuel) (names : List (Text × Text)) (bp : BatchP) (bad : Bool)
+    (st : St) : Pres st (resolveNames env (fuel + 1) names bp bad st).2 := by
+  cases names with
+  | nil => unfold resolveNames; exact Pres.refl _
+  | cons pn rest =>
+    obtain ⟨p, n⟩ := pn
+    unfold resolveNames
+    dsimp only
+    have h := ih.getitem n true st
+    generalize getitem env fuel n true st = res at h
+    obtain ⟨r, st'⟩ := res
+    have h : Pres st st' := h
+    cases r with
+    | ok v =>
+      dsimp only
+      cases paramInt v with
+      | ok i => exact h.trans (ih.resolveNames _ _ _ _)
+      | bad => exact h.trans (ih.resolveNames _ _ _ _)
+      | valueError =>
+        dsimp only
+        split
+        · exact h.trans (ih.resolveNames _ _ _ _)
+        · exact h
+    | raise e =>
+      dsimp only
+      split
+      · exact h.trans (ih.resolveNames _ _ _ _)
+      · exact h
+    | ret v =>
+      dsimp only
+      split
+      · exact h.trans (ih.resolveNames _ _ _ _)
+      · exact h
+    | oom => exact h
+
+theorem evalSortKey_step (env : Env) (fuel : Nat) (ih : IH env fuel) (x : InXOpts) (st : St) :
+    Pres st (evalSortKey env (fuel + 1) x st).2 := by
+  unfold evalSortKey
+  cases x.sortExpr with
+  | none => exact Pres.refl _
+  | some e =>
+    dsimp only
+    have h := ih.evalExpr e st
+    generalize evalExpr env fuel e st = res at h
+    obtain ⟨r, st'⟩ := res
+    cases r with
+    | ok v => cases v <;> exact h
+    | raise ex => exact h
+    | ret v => exact h
+    | oom => exact h
+
+theorem evalReverse_step (env : Env) (fuel : Nat) (ih : IH env fuel) (x : InXOpts) (st : St) :
+    Pres st (evalReverse env (fuel + 1) x st).2 := by
+  unfold evalReverse
+  cases x.reverseExpr with
+  | none => exact Pres.refl _
+  | some e =>
+    dsimp only
+    have h := ih.evalExpr e st
+    generalize evalExpr env fuel e st = res at h
+    obtain ⟨r, st'⟩ := res
+    cases r <;> exact h
+
 theorem renderBlk_step (env : Env) (fuel : Nat) (ih : IH env fuel) (b : Blk) (st : St) :
     Pres st (renderBlk env (fuel + 1) b st).2 := by
   cases b with
@@ -862,44 +931,79 @@ theorem renderBlk_step (env : Env) (fuel : Nat) (ih : IH env fuel) (b : Blk) (st
         · rw [oneRes_snd]; exact h.trans (ih.renderJoined _ _)
         · exact h
       · rename_i _ xs hne heq
-        have ha := arrange_pres env o x xs st'
-        generalize arrange env o x xs st' = resa at ha ⊢
-        obtain ⟨ra, st1⟩ := resa
-        cases ra with
-        | ok ys =>
+        have hk := ih.evalSortKey x st'
+        generalize evalSortKey env fuel x st' = resk at hk ⊢
+        obtain ⟨rk, sA⟩ := resk
+        have hk : Pres st' sA := hk
+        cases rk with
+        | ok key =>
           dsimp only
-          generalize cacheOf src v = cache
-          have ha : Pres st' st1 := ha
-          cases x.batch with
-          | none =>
+          have hs := sortPart_pres env o { x with sortKey := key } xs sA
+          generalize sortPart env o { x with sortKey := key } xs sA = ress at hs ⊢
+          obtain ⟨rs, sB⟩ := ress
+          have hs : Pres sA sB := hs
+          cases rs with
+          | ok sorted =>
             dsimp only
-            have hl := ih.inLoop { items := ys, mapping := o.mapping, prefix_ := o.prefix_ } o body 0
-                { st1 with stack := (Frame.seq { items := ys, mapping := o.mapping, prefix_ := o.prefix_ } :: cache) ++ st1.stack }
-            generalize inLoop env fuel { items := ys, mapping := o.mapping, prefix_ := o.prefix_ } o body 0
-                { st1 with stack := (Frame.seq { items := ys, mapping := o.mapping, prefix_ := o.prefix_ } :: cache) ++ st1.stack } = res2 at hl ⊢
-            obtain ⟨r2, st2⟩ := res2
-            have hfin := pres_push_drop st1 st2 _ (List.cons_ne_nil _ _) hl
-            cases r2 with
-            | ok ps => simp only; split <;> exact h.trans (ha.trans hfin)
-            | raise e => exact h.trans (ha.trans hfin)
-            | ret x => exact h.trans (ha.trans hfin)
-            | oom => exact h.trans (ha.trans hfin)
-          | some bp =>
-            dsimp only
-            have hq := ih.getitem (txt "QUERY_STRING") true st1
-            generalize getitem env fuel (txt "QUERY_STRING") true st1 = resq at hq ⊢
-            obtain ⟨rq, st2⟩ := resq
-            have hq : Pres st1 st2 := hq
-            have hb := ih.inBatch (batchInit { items := ys, mapping := o.mapping, prefix_ := o.prefix_ } (bwinOf bp ys.length))
-              o bp (bwinOf bp ys.length) body els cache st2
-            cases rq with
-            | oom => exact h.trans (ha.trans hq)
-            | ok q => dsimp only; rw [oneRes_snd]; exact h.trans (ha.trans (hq.trans hb))
-            | raise e => dsimp only; rw [oneRes_snd]; exact h.trans (ha.trans (hq.trans hb))
-            | ret q => dsimp only; rw [oneRes_snd]; exact h.trans (ha.trans (hq.trans hb))
-        | raise e => exact h.trans ha
-        | ret v => exact h.trans ha
-        | oom => exact h.trans ha
+            have hr := ih.evalReverse x sB
+            generalize evalReverse env fuel x sB = resr at hr ⊢
+            obtain ⟨rr, st1⟩ := resr
+            have hr : Pres sB st1 := hr
+            have ha : Pres st st1 := h.trans (hk.trans (hs.trans hr))
+            cases rr with
+            | ok rev =>
+              dsimp only
+              generalize applyReverse rev sorted = ys
+              generalize cacheOf src v = cache
+              cases x.batch with
+              | none =>
+                dsimp only
+                have hl := ih.inLoop { items := ys, mapping := o.mapping, prefix_ := o.prefix_ } o body 0
+                    { st1 with stack := (Frame.seq { items := ys, mapping := o.mapping, prefix_ := o.prefix_ } :: cache) ++ st1.stack }
+                generalize inLoop env fuel { items := ys, mapping := o.mapping, prefix_ := o.prefix_ } o body 0
+                    { st1 with stack := (Frame.seq { items := ys, mapping := o.mapping, prefix_ := o.prefix_ } :: cache) ++ st1.stack } = res2 at hl ⊢
+                obtain ⟨r2, st2⟩ := res2
+                have hfin := pres_push_drop st1 st2 _ (List.cons_ne_nil _ _) hl
+                cases r2 with
+                | ok ps => simp only; split <;> exact ha.trans hfin
+                | raise e => exact ha.trans hfin
+                | ret x => exact ha.trans hfin
+                | oom => exact ha.trans hfin
+              | some bp0 =>
+                dsimp only
+                have hp := ih.resolveNames x.names bp0 false st1
+                generalize resolveNames env fuel x.names bp0 false st1 = resp at hp ⊢
+                obtain ⟨rp, sP⟩ := resp
+                have hp : Pres st1 sP := hp
+                cases rp with
+                | ok pb =>
+                  obtain ⟨bp, bad⟩ := pb
+                  dsimp only
+                  split
+                  · exact ha.trans hp
+                  · have hq := ih.getitem (txt "QUERY_STRING") true sP
+                    generalize getitem env fuel (txt "QUERY_STRING") true sP = resq at hq ⊢
+                    obtain ⟨rq, st2⟩ := resq
+                    have hq : Pres sP st2 := hq
+                    have hb := ih.inBatch (batchInit { items := ys, mapping := o.mapping, prefix_ := o.prefix_ } (bwinOf bp ys.length))
+                      o bp (bwinOf bp ys.length) body els cache st2
+                    cases rq with
+                    | oom => exact ha.trans (hp.trans hq)
+                    | ok q => dsimp only; rw [oneRes_snd]; exact ha.trans (hp.trans (hq.trans hb))
+                    | raise e => dsimp only; rw [oneRes_snd]; exact ha.trans (hp.trans (hq.trans hb))
+                    | ret q => dsimp only; rw [oneRes_snd]; exact ha.trans (hp.trans (hq.trans hb))
+                | raise e => exact ha.trans hp
+                | ret v => exact ha.trans hp
+                | oom => exact ha.trans hp
+            | raise e => exact ha
+            | ret v => exact ha
+            | oom => exact ha
+          | raise e => exact h.trans (hk.trans hs)
+          | ret v => exact h.trans (hk.trans hs)
+          | oom => exact h.trans (hk.trans hs)
+        | raise e => exact h.trans hk
+        | ret v => exact h.trans hk
+        | oom => exact h.trans hk
     | raise e => exact h
     | ret v => exact h
     | oom => exact h
@@ -927,6 +1031,9 @@ theorem all_preserve (env : Env) : ∀ fuel, IH env fuel := by
       inLoop := inLoop_step env n ih
       inLoopB := inLoopB_step env n ih
       inBatch := inBatch_step env n ih
+      resolveNames := resolveNames_step env n ih
+      evalSortKey := evalSortKey_step env n ih
+      evalReverse := evalReverse_step env n ih
       letLoop := letLoop_step env n ih }
 
 /-! #### the property -/
